@@ -165,3 +165,10 @@ def fingerprint(r, clauses):
 def sample(r):
     return dict(table=r['label'], table_entries=len(r['table']), data_bytes=len(r['data']), lines=len(r['lines']),
                 first=''.join(chr(c) for c in r['lines'][0]['msg']) if r['lines'] else None)
+
+
+def corrupt(r):
+    if not r['lines']:
+        return None
+    r['lines'][0]['pte'][3] ^= 1
+    return r
